@@ -72,6 +72,7 @@ func difficulty(powDigest []byte, nonce uint64) *big.Int {
 		panic(err)
 	}
 	digest, _ := c.Squeeze(consts.HashTrinarySize)
+	simDigest(digest, nonce)
 
 	h := toInt(digest)
 	return h.Quo(maxHash, h)
